@@ -65,6 +65,8 @@ def conv(tlc_script, ids, i):
             ops.append({"o": "wop", "k": "joinmut", "s": 0, "v": ["join", "lend", "par"][rot % 3], "sel": 0xffff, "wsel": m})
         elif k == "setemit":
             ops.append({"o": "wop", "k": "setemit", "s": 0, "b": bool(o["b"])})
+        elif k == "slice":
+            ops.append({"o": "wop", "k": "slice", "s": 0})
         elif k == "clear_f":
             ops.append({"o": "fault", "k": o["k"], "op": {"o": "wop", "k": "clear", "s": 0}})
         elif k == "delete_f":
@@ -131,6 +133,7 @@ def run_suite(name, tier, seed):
     if kind == "smc":
         mc = {"states": 0, "transitions": 0, "runs": []}
         ntlc = 0
+        drift_src = []
         for k in params["kinds"]:
             for t in params["trks"]:
                 st, tl = C.model_check("Store_MC.tla", smc_cfg(params["ids"], k, t, params["MaxOps"], params["MaxC"], faults=params.get("faults", False)),
@@ -139,6 +142,8 @@ def run_suite(name, tier, seed):
                 mc["transitions"] += st.get("transitions", 0)
                 mc["runs"].append({"kind": k, "trk": t, "states": st.get("states"), "transitions": st.get("transitions"), "depth": st.get("depth")})
                 ntlc += len(tl)
+                if not params.get("faults", False):
+                    drift_src.append((k, t, G.dedupe_prefixes(tl)))
                 hk = [PREFIX[t] + x for x in HARNESS_KINDS[k] if t == "none" or not x.startswith("p_")]
                 if k == "map" and t == "flagged":
                     hk.append("pf_hash")
@@ -148,6 +153,7 @@ def run_suite(name, tier, seed):
                     tid += 1
         res["mc"] = mc
         res["tlc_scripts"] = ntlc
+        res["_drift_src"] = drift_src
     elif kind == "kchurn":
         scripts = G.kind_churn_scripts(seed, params["per_kind"], params["n_ops"], tid, far=params.get("far", False))
     else:
@@ -157,9 +163,57 @@ def run_suite(name, tier, seed):
     res.update(n_scripts=r["n_scripts"], n_events=r["n_events"], wall_s=r["wall_s"])
     res["viol"] = W.pack_viol(r["viol"], scripts)
     res["samples"] = W.samples_of(scripts)
+    src = res.pop("_drift_src", None)
+    if src:
+        try:
+            res["drift"] = store_drift(src, params["ids"], workdir)
+        except C.ToolError as e:
+            res["drift"] = {"error": str(e)[-300:]}
     C.sh(["rm", "-rf", workdir])
     C.cache_put(key, res)
     return res
+
+
+def store_drift(src, ids, workdir, per_combo=400):
+    """impl -> L1: TLC re-executes histories emitted from Store_MC on Store_L1 and compares masks, present
+    lookups, counts, join / drain members, event kinds and the owner of every slot of the raw slot views
+    (i.e. the dense layout) with what the real code recorded (informational, never an alarm)"""
+    import json
+    tot = {"scripts": 0, "drifted": 0, "first": []}
+    for ci, (k, t, hists) in enumerate(src):
+        def sample(xs, n):
+            if len(xs) <= n:
+                return list(xs)
+            step = len(xs) / float(n)
+            return [xs[int(i * step)] for i in range(n)]
+        # the histories that end in a look at the raw slot view say most about the layout
+        views = [h for h in hists if h and h[-1].get("o") == "slice" and any(o.get("o") == "remove" for o in h)]
+        rest = [h for h in hists if not (h and h[-1].get("o") == "slice")]
+        hists = sample(views, per_combo) + sample(rest, per_combo)
+        d = os.path.join(workdir, "sdrift%d" % ci)
+        os.makedirs(d, exist_ok=True)
+        sp, hp, tp = os.path.join(d, "scripts.ndjson"), os.path.join(d, "harness.ndjson"), os.path.join(d, "trace.ndjson")
+        hk = PREFIX[t] + HARNESS_KINDS[k][0]
+        with open(sp, "w") as f, open(hp, "w") as g:
+            for i, h in enumerate(hists):
+                tid = 19000000 + ci * 10000 + i
+                f.write(json.dumps({"tid": tid, "ops": h}) + "\n")
+                g.write(json.dumps({"tid": tid, "cfg": {"kinds": [hk], "reg": ["register"]}, "ops": conv(h, ids, i), "sweep": "full"}) + "\n")
+        r = C.sh([C.BIN, "world", hp, tp], timeout=600)
+        if r.returncode != 0:
+            return {"error": "harness exit %d" % r.returncode}
+        cfg = os.path.join(d, "drift.cfg")
+        C.write_cfg(cfg, "SPECIFICATION DSpec\nCONSTANTS\n  Ids = {%s}\n  Kind = \"%s\"\n  Trk = \"%s\"\nINVARIANT Verdict\nCHECK_DEADLOCK FALSE\n"
+                    % (", ".join(str(i) for i in ids), k, t))
+        tl = C.run_tlc("Store_Drift.tla", cfg, workers=1, timeout=600, env={"SCRIPTS": sp, "TRACE": tp}, deque=True, xmx="3g")
+        dd = C.parse_printed(tl.stdout, "DRIFT")
+        if not dd:
+            return {"error": "%s/%s: %s" % (k, t, tl.stdout[-300:])}
+        tot["scripts"] += dd[-1]["scripts"]
+        tot["drifted"] += dd[-1]["drifted"]
+        tot["first"] += [[k, t] + x for x in dd[-1]["first"][:2]]
+    tot["first"] = tot["first"][:6]
+    return tot
 
 
 def inductive(tier):
